@@ -132,6 +132,10 @@ type SDef struct {
 	Subscription string    `json:"subscription,omitempty"`
 	Additional   []string  `json:"additional,omitempty"`
 	Dirs         []DirDef  `json:"dirs,omitempty"`
+	// UDirs: directive definitions that are NOT entries of SchemaDefinition.Directives; they exist only
+	// as the Definition of applied directives (AppliedDir.Def names them like the listed ones). Their
+	// arguments carry no applied directives.
+	UDirs []DirDef `json:"udirs,omitempty"`
 	// SharedFeat: feature sets with equal contents are one shared Go map (as applications do when
 	// they reuse one FeatureSet variable for a type and its fields).
 	SharedFeat bool `json:"shared_feat,omitempty"`
@@ -166,6 +170,11 @@ func (d *SDef) dirByName(n string) *DirDef {
 	for i := range d.Dirs {
 		if d.Dirs[i].Name == n {
 			return &d.Dirs[i]
+		}
+	}
+	for i := range d.UDirs {
+		if d.UDirs[i].Name == n {
+			return &d.UDirs[i]
 		}
 	}
 	return nil
@@ -281,8 +290,18 @@ const omitNestedDefaults = true
 var descPool = []string{"", "", "a description", "multi\nline", "with \"quotes\" and \\ backslash", "ünïcödé ✓", " ", "x"}
 var deprPool = []string{"", "", "", "no longer supported", "use \"other\"", " ", "old\nreason"}
 
-func (g *gen) desc() string { return hx.Pick(g.r, descPool) }
-func (g *gen) depr() string { return hx.Pick(g.r, deprPool) }
+func (g *gen) desc() string {
+	if g.r.Chance(1, 8) {
+		return g.boundaryStr()
+	}
+	return hx.Pick(g.r, descPool)
+}
+func (g *gen) depr() string {
+	if g.r.Chance(1, 10) {
+		return g.boundaryStr()
+	}
+	return hx.Pick(g.r, deprPool)
+}
 
 func (g *gen) featSet() []string {
 	if !g.r.Chance(1, 4) {
@@ -401,9 +420,44 @@ func (g *gen) inputVal(name string, allowed []string, rank int) InputVal {
 
 var stringPool = []string{"", "plain", "with \"quotes\"", "back\\slash", "new\nline", "tab\there", "cr\rlf\n", "ünï ✓ 日本", " sep ", "<html>&amp;", "\x00\x01\x1f\x7f", "\b\f", "\\u0041", "\"\"\"", "#not a comment", "\ufeffbom", "\ufffd", "{a: 1}", "$var", "end\\"}
 
+// boundaryRunes: the runes at which a string printer / lexer may change its treatment, each with
+// its neighbours — C0 controls (< 0x20 are escaped), '"' and '\\', DEL, the C1 / Latin-1 range, the
+// HTML-sensitive characters and U+2028/9 that encoding/json escapes, the surrogate gap, the last BMP
+// code points — and runes that are congruent to a special character modulo 256 (U+0122 = '"',
+// U+015C = '\\', U+010A = '\n', U+0100 = NUL, U+011F, U+017F, U+2122, U+205C …): a table indexed with
+// a truncated rune would treat them like that character.
+var boundaryRunes = []rune{0x00, 0x01, 0x08, 0x09, 0x0a, 0x0b, 0x0c, 0x0d, 0x0e, 0x1e, 0x1f, 0x20, 0x21, 0x22, 0x23, 0x25, 0x26, 0x27, 0x2f,
+	0x3b, 0x3c, 0x3d, 0x3e, 0x3f, 0x5b, 0x5c, 0x5d, 0x7e, 0x7f, 0x80, 0x81, 0x9f, 0xa0, 0xa1, 0xad, 0xbf, 0xc0, 0xe9, 0xfe, 0xff,
+	0x100, 0x101, 0x10a, 0x10d, 0x11f, 0x120, 0x122, 0x126, 0x13c, 0x13e, 0x15c, 0x17f, 0x180, 0x7ff, 0x800,
+	0x2027, 0x2028, 0x2029, 0x202a, 0x2122, 0x205c, 0x200a, 0x2000, 0xd7ff, 0xe000, 0xfeff, 0xfffd, 0xfffe, 0xffff}
+
+// (beyond the BMP — open finding F-10b covers every one of them —: the first and last astral code
+// points and runes congruent to '"', '\\', '\n' modulo 65536)
+var astralPool = []string{"😀", "a𝄞b", "\U0010ffff", "\U00010000", "\U00010022x", "x\U0001005c", "\U0001000a", "a\U0002005cb"}
+
+// boundaryStr puts one to three boundary runes at the first, an inner and the last position of a
+// short string.
+func (g *gen) boundaryStr() string {
+	a, b, c := hx.Pick(g.r, boundaryRunes), hx.Pick(g.r, boundaryRunes), hx.Pick(g.r, boundaryRunes)
+	switch g.r.Intn(5) {
+	case 0:
+		return string(a) + "mid"
+	case 1:
+		return "mid" + string(c)
+	case 2:
+		return "in" + string(b) + "ner"
+	case 3:
+		return string(a)
+	}
+	return string(a) + "x" + string(b) + "y" + string(c)
+}
+
 func (g *gen) str() string {
 	if (g.o.AstralStrings && g.r.Chance(1, 3)) || (g.astralOK && g.r.Chance(1, 10)) {
-		return hx.Pick(g.r, []string{"😀", "a𝄞b", "\U0010ffff"})
+		return hx.Pick(g.r, astralPool)
+	}
+	if g.r.Chance(1, 4) {
+		return g.boundaryStr()
 	}
 	if g.r.Chance(1, 4) {
 		// random BMP string without surrogates
@@ -527,6 +581,7 @@ func (g *gen) applied(loc string) []AppliedDir {
 			cands = append(cands, dd)
 		}
 	}
+	cands = append(cands, g.d.UDirs...)
 	if len(cands) == 0 {
 		return nil
 	}
@@ -684,42 +739,14 @@ func genSDef(r *hx.Rand, o genOpts) *SDef {
 		}
 		add(t)
 	}
-	// custom directives (their arguments may use scalars and enums; input objects come later)
+	// custom directives (their arguments may use scalars and enums; input objects come later):
+	// listed in SchemaDefinition.Directives, and unlisted ones that exist only as the Definition of
+	// applied directives (appdirs.go)
 	for i, n := 0, r.Intn(3); i < n; i++ {
-		dd := DirDef{Name: g.name("dir", i), Desc: g.desc()}
-		locs := append([]string{}, allLocations...)
-		hx.Shuffle(r, locs)
-		dd.Locs = locs[:r.Range(1, 4)]
-		if r.Chance(1, 8) {
-			dd.Locs = append([]string{}, allLocations...)
-		}
-		for j, k := 0, r.Intn(3); j < k; j++ {
-			// directive arguments: ungated leaves only (directives are not feature-gated)
-			saveInputs := g.inputs
-			g.inputs = nil
-			// (1 in 8: any leaf, so that schema.New's refusal of gated directive argument types is exercised)
-			var allowed []string
-			if r.Chance(1, 8) {
-				allowed = g.feat
-			}
-			iv := g.inputVal(g.name("d", j), allowed, 1<<30)
-			g.inputs = saveInputs
-			if r.Chance(1, 3) {
-				// an enum nothing but directive arguments refers to (history.go gates it afterwards)
-				if d.typeByName("EnD") == nil {
-					add(TypeDef{Kind: "enum", Name: "EnD", Values: []EnumVal{{Name: "FAST"}, {Name: "SLOW", Depr: "slow"}}})
-				}
-				iv.Type = TRef{W: hx.Pick(r, []string{"", "N", "L", "LN"}), N: "EnD"}
-				iv.Def = nil
-				if r.Bool() && !iv.Type.nonNull() {
-					iv.Def = &Val{K: "null"}
-				} else if r.Bool() && iv.Type.W == "" {
-					iv.Def = &Val{K: "enum", S: "FAST"}
-				}
-			}
-			dd.Args = append(dd.Args, iv)
-		}
-		d.Dirs = append(d.Dirs, dd)
+		d.Dirs = append(d.Dirs, g.customDir(g.name("dir", i), add))
+	}
+	for i, n := 0, r.Intn(3); i < n; i++ {
+		d.UDirs = append(d.UDirs, g.customDir(g.name("udir", i), add))
 	}
 	for idx, n := range g.inputs {
 		t := TypeDef{Kind: "input", Name: n, Desc: g.desc(), Feat: g.tfeat[n], Wrap: r.Chance(1, 3)}
@@ -830,6 +857,8 @@ func genSDef(r *hx.Rand, o genOpts) *SDef {
 		// the same object as two roots
 		d.Mutation = "Query"
 	}
+	// argument types that only a directive definition refers to
+	g.exclusiveArgTypes(add)
 	// applied directives on enums / scalars and their values
 	for i := range d.Types {
 		t := &d.Types[i]
@@ -845,6 +874,7 @@ func genSDef(r *hx.Rand, o genOpts) *SDef {
 			}
 		}
 	}
+	g.applyUnlisted()
 	// additional types: some of everything (objects reachable only through their interfaces,
 	// unions / enums / inputs nothing else mentions, a built-in scalar)
 	for _, t := range d.Types {
@@ -877,6 +907,9 @@ func normalise(d *SDef) {
 		sortInputs(d.Dirs[i].Args)
 	}
 	sort.Slice(d.Dirs, func(a, b int) bool { return d.Dirs[a].Name < d.Dirs[b].Name })
+	for i := range d.UDirs {
+		sortInputs(d.UDirs[i].Args)
+	}
 }
 
 func dedupFields(fs []FieldDef) []FieldDef {
